@@ -240,3 +240,32 @@ V('c20-wrong-exception', 'C20', 'C20.R1',
 V('c20-none-match', 'C20', 'C20.R1',
   (VMF, "        if m is None:\n            valuemap_int = self._to_int(valuemap_str)\n            return (valuemap_int, valuemap_int, values_str)\n",
         "        if valuemap_str.isdigit():\n            valuemap_int = self._to_int(valuemap_str)\n            return (valuemap_int, valuemap_int, values_str)\n"), 'AttributeError')
+
+# ---- C07 ------------------------------------------------------------------
+V('c07-repr-float', 'C07', 'C07.R3',
+  (OBJ, "                ret.append(str(value))\n            elif isinstance(value, (CIMInt, int)):",
+        "                ret.append(repr(value))\n            elif isinstance(value, (CIMInt, int)):"), 'debug-repr')
+V('c07-no-dotall', 'C07', 'C07.R2',
+  (OBJ, "    flags=(re.UNICODE | re.DOTALL))", "    flags=re.UNICODE)"), 'not-accepted')
+V('c07-escape-order', 'C07', 'C07.R2',
+  (OBJ, "                ret.append(value.\n                           replace('\\\\', '\\\\\\\\').\n                           replace('\"', '\\\\\"'))\n                ret.append('\"')\n            elif isinstance(value, bool):",
+        "                ret.append(value.\n                           replace('\"', '\\\\\"').\n                           replace('\\\\', '\\\\\\\\'))\n                ret.append('\"')\n            elif isinstance(value, bool):"),
+  '')
+V('c07-host-not-folded', 'C07', 'C07.R4',
+  (OBJ, "            ret.append('//')\n            ret.append(case(self.host))\n\n        if self.host is not None or format not in ('cimobject', 'historical'):\n            ret.append('/')\n\n        if self.namespace is not None:\n            ret.append(case(self.namespace))\n\n        if self.namespace is not None or format != 'historical':\n            ret.append(':')\n\n        ret.append(case(self.classname))\n\n        ret.append('.')",
+        "            ret.append('//')\n            ret.append(self.host)\n\n        if self.host is not None or format not in ('cimobject', 'historical'):\n            ret.append('/')\n\n        if self.namespace is not None:\n            ret.append(case(self.namespace))\n\n        if self.namespace is not None or format != 'historical':\n            ret.append(':')\n\n        ret.append(case(self.classname))\n\n        ret.append('.')"),
+  'not-folded')
+V('c07-nested-format', 'C07', 'C07.R4',
+  (OBJ, "ret.append(value.to_wbem_uri(format=format).", "ret.append(value.to_wbem_uri()."), 'nested-format')
+V('c07-keys-unsorted', 'C07', 'C07.R4',
+  (OBJ, "        for key in case_sorted(self.keybindings.keys()):", "        for key in self.keybindings.keys():"), 'keys-order')
+V('c07-kb-empty', 'C07', 'C07.R1',
+  (OBJ, "_KB_NOT_QUOTED = r'[^,\"\\'\\\\]+'", "_KB_NOT_QUOTED = r'[^,\"\\'\\\\]*'"), 'empty-value')
+V('c07-parser-typeerror', 'C07', 'C07.R1',
+  (OBJ, "        m = WBEM_URI_CLASSPATH_REGEXP.match(wbem_uri)\n        if m is None:\n            raise ValueError(", "        m = WBEM_URI_CLASSPATH_REGEXP.match(wbem_uri)\n        if m is None:\n            raise TypeError("),
+  'TypeError')
+V('c07-none-match', 'C07', 'C07.R1',
+  (OBJ, "        m = WBEM_URI_KEYBINDINGS_REGEXP.match(keybindings_str)\n        if m is None:\n            raise ValueError(\n                _format(\"WBEM URI has an invalid format for its keybindings: \"\n                        \"{0!A}\", keybindings_str))\n", "        m = WBEM_URI_KEYBINDINGS_REGEXP.match(keybindings_str)\n"),
+  'AttributeError')
+V('c07-case-sorted', 'C07', 'C07.R5',
+  (OBJ, "            return sorted([case(k) for k in keys])", "            return [case(k) for k in sorted(keys)]"), 'sort-shape')
